@@ -1,9 +1,9 @@
-\* thorough exhaustive: 10 designs (2 and 3 blocks below the dummy, 2 or 3 components), two temperature profiles
+\* thorough exhaustive: 10 designs (2 and 3 blocks below the dummy, 2 or 3 components), a non-monotone temperature profile (the quick instance uses the monotone one)
 CONSTANTS
   Designs <- DesignsThorough
   Growths <- G3
   MaxNonUnit = 2
-  LevelTriples <- TriplesQuick
+  LevelTriples <- TriplesOther
   BreakStep = 2
   FromInput <- FromBoth
   ExplicitTargets = TRUE
